@@ -40,3 +40,16 @@ CHECKS["C04"] = dict(
     outside=["buffer sizes >4", "duplicate sequence numbers", "padding forms", "asynchronous resend goroutines and pool recycling under schedules", "responder interceptor wiring (NACK parsing)"],
     assumptions=["sync.Pool modelled as LIFO free list", "rtp sequencer start nondeterministic"],
 )
+
+CHECKS["C18"] = dict(
+    jobs=[
+        dict(pkg="pkg/jitterbuffer", entry="HC18Ops", params=dict(min=2, ops=4, span=3), flags=["-unwindviol", "-unwind", "40"],
+             thorough=dict(params=dict(ops=6, span=4), timeout=3400)),
+        dict(pkg="pkg/jitterbuffer", entry="HC18Ops", params=dict(min=1, ops=4, span=3), flags=["-unwindviol", "-unwind", "40"],
+             thorough=dict(params=dict(ops=6, span=4), timeout=3400)),
+    ],
+    bounds=dict(quick="JitterBuffer from New(min start 1|2), 4 operations chosen symbolically from {Push, Pop, PopAtSequence, PeekAtSequence, Clear}, sequence numbers base+0..3 for any 16-bit base (wrap included), distinct packet objects; list loops bounded by 40 iterations (excess = loop-forever violation)",
+                thorough="6 operations, span 4"),
+    outside=["more than 6 operations", "PopAtTimestamp/Peek(bool)/SetPlayoutHead", "event listeners", "the receiver interceptor wrapper"],
+    assumptions=["sync.Mutex engine primitive", "pointer identity is concrete in the engine"],
+)
